@@ -31,6 +31,11 @@ KAPPA_WELL = 100.0                  # rows with kappa_k <= this: DESIGN's 1e4*ep
 FAMILIES = ['uniform-int', 'uniform-h0.1', 'one-sided', 'chebyshev', 'cubic-cluster', 'geometric',
             'reversed', 'interleaved']
 X0KINDS = ['first-node', 'middle-node', 'centroid+0.0371', 'min-0.5', 'max+2']
+# the same shapes on other scales and next to a symmetric stencil: nothing may be measured against an absolute size
+SCALE_FAMILIES = ['tiny-offsets', 'coarse', 'near-symmetric']
+FAMILY_X0 = {'tiny-offsets': ['first-node', 'middle-node', 'between-nodes-2^-36'],
+             'coarse': ['first-node', 'middle-node', 'centroid+0.0371', 'max+2'],
+             'near-symmetric': ['middle-node', 'middle-node+5e-9', 'first-node']}
 SIZES = list(range(2, 15))
 PERM7_FAMILIES = ['cubic-cluster', 'geometric']
 
@@ -49,6 +54,12 @@ def family(name, m):
         return [(2.0 * i / (m - 1) - 1.0) ** 3 for i in r]
     if name == 'geometric':
         return [0.01 * 1.5 ** i for i in r]
+    if name == 'tiny-offsets':               # one-sided, non-uniform, offsets of order 1e-10 from 1 (exact in binary)
+        return [1.0 + 2.0 ** -35 * (i * (i + 7) // 2) for i in r]
+    if name == 'coarse':                     # spacing ~ 400
+        return [4096.0 * (0.3 + 0.1 * i) for i in r]
+    if name == 'near-symmetric':             # a symmetric integer stencil with two nodes moved by 3e-6 / 1e-6
+        return [float(i - m // 2) + (3e-6 if i == 1 else (1e-6 if i == m - 1 and m > 2 else 0.0)) for i in r]
     if name == 'reversed':                   # decreasing, quadratically clustered at its start
         return [1.0 - (i / (m - 1.0)) ** 2 for i in r]
     if name == 'interleaved':                # Chebyshev-Lobatto nodes in the order first, last, second, ...
@@ -70,6 +81,10 @@ def x0_of(kind, x):
         return x[len(x) // 2]
     if kind == 'centroid+0.0371':
         return math.fsum(x) / len(x) + 0.0371
+    if kind == 'between-nodes-2^-36':
+        return x[1] + 2.0 ** -36
+    if kind == 'middle-node+5e-9':
+        return x[len(x) // 2] + 5e-9
     if kind == 'min-0.5':
         return min(x) - 0.5
     if kind == 'max+2':
@@ -239,7 +254,7 @@ def work(chunk):
         x = list(x)
         m = len(x)
         is_sorted = x == sorted(x) or x == sorted(x, reverse=True)
-        for kind in X0KINDS:
+        for kind in FAMILY_X0.get(fam, X0KINDS):
             x0 = x0_of(kind, x)
             W, S = oracle(x, x0)
             for n in range(m):
@@ -291,6 +306,9 @@ def build_cases(ctx):
         add('family', 'uniform-int', 'list', family('uniform-int', m))
         add('family', 'uniform-int', 'int64', family('uniform-int', m))
         add('family', 'chebyshev', 'list', family('chebyshev', m))
+        if m <= 9:
+            for fam in SCALE_FAMILIES:
+                add('family', fam, 'ndarray', family(fam, m))
     nperm = 0
     for m in range(2, perm_max + 1):
         for fam in FAMILIES:
@@ -354,11 +372,12 @@ def run(ctx):
     acc.sample(dict(permutation_of='cubic-cluster size 5', x=list(itertools.permutations(family('cubic-cluster', 5)))[77],
                     n='0..4'))
     acc.sample(dict(length_guard='n in {len(x), len(x)+1} for every node vector, x0 in {first node, max+2}'))
-    req = (['family=' + f for f in FAMILIES] + ['x0=' + k for k in X0KINDS] + ['size=%d' % m for m in SIZES] +
+    req = (['family=' + f for f in FAMILIES + SCALE_FAMILIES] + ['x0=' + k for k in X0KINDS + ['between-nodes-2^-36', 'middle-node+5e-9']] + ['size=%d' % m for m in SIZES] +
            ['n=%d' % n for n in range(0, 14)] + ['all-permutations/size=%d' % m for m in range(3, perm_max + (1 if ctx.quick else 2))] +
            ['order=monotone', 'order=scrambled', 'x0-class=on-node', 'x0-class=inside', 'x0-class=outside',
             'container=list', 'container=int64', 'length-guard/n>=len(x)'])
-    rule = ('8 node families x sizes 2..14 (+ list / int64 containers for two families) + ALL permutations of every '
+    rule = ('8 node families x sizes 2..14 (+ list / int64 containers for two families; + sizes 2..9 of three scale families: '
+            'offsets of order 1e-10 from 1, spacing ~400, a symmetric stencil with two nodes moved by 1e-6 and x0 moved by 5e-9) + ALL permutations of every '
             'family for sizes <= %d (thorough: also size 7 of cubic-cluster and geometric; %d distinct vectors '
             'after removing duplicates) x x0 in {first node, middle node, '
             'centroid+0.0371, min-0.5, max+2} x every n < len(x); each (x, x0, n) calls fd_weights_all and fd_weights. '
